@@ -112,18 +112,19 @@ JudgeOk(r) ==
   \* ---- C01 (static half) : the symbolic order of effects of the output is that of the input
   /\ IF ~modified THEN Verdict(r.rid, "C01", "na", "not modified")
      ELSE IF r.in_mentions_ns THEN Verdict(r.rid, "C01", "na", "the input mentions the hook namespace")
-     ELSE \E effOut \in {EffectsOf(rout, Injected(rout, rin), TRUE, {}, FALSE)} :
-          \E diff \in {FirstEffectDiff(EffectsOf(rin, {}, FALSE, {}, FALSE), effOut, 1)} :
+     ELSE \E effOut \in {EffectsOf(rout, Injected(rout, rin), TRUE, {}, {})} :
+          \E diff \in {FirstEffectDiff(EffectsOf(rin, {}, FALSE, {}, {}), effOut, 1)} :
+          \E d21 \in {D21Ids(rin, {sites[i].id : i \in {j \in siteIdx : sites[j].k = "optcall" /\ sites[j].id \in hookedIds}})} :
           \E bareIds \in {{sites[i].id : i \in {j \in siteIdx : sites[j].k = "bare" /\ sites[j].id \in hookedIds}}} :
           IF diff = "" THEN Verdict(r.rid, "C01", "ok", Len(marks))
           ELSE IF D6Dev \in m.devs THEN Verdict(r.rid, "C01", "dev", {D6Dev})
           ELSE IF "dev:D7b-nonconstant-sum-operand-omitted" \in whys THEN Verdict(r.rid, "C01", "dev", {"D7b-nonconstant-sum-operand-omitted"})
           \* the other named deviations are decided by re-evaluating the INPUT with exactly that deviation: equal then
-          ELSE IF bareIds # {} /\ FirstEffectDiff(EffectsOf(rin, {}, FALSE, bareIds, FALSE), effOut, 1) = ""
+          ELSE IF bareIds # {} /\ FirstEffectDiff(EffectsOf(rin, {}, FALSE, bareIds, {}), effOut, 1) = ""
                THEN Verdict(r.rid, "C01", "dev", {"D23-bare-callee-read-after-arguments"})
-          ELSE IF FirstEffectDiff(EffectsOf(rin, {}, FALSE, {}, TRUE), effOut, 1) = ""
+          ELSE IF d21 # {} /\ FirstEffectDiff(EffectsOf(rin, {}, FALSE, {}, d21), effOut, 1) = ""
                THEN Verdict(r.rid, "C01", "dev", {"D21-optional-call-loses-receiver"})
-          ELSE IF bareIds # {} /\ FirstEffectDiff(EffectsOf(rin, {}, FALSE, bareIds, TRUE), effOut, 1) = ""
+          ELSE IF bareIds # {} /\ d21 # {} /\ FirstEffectDiff(EffectsOf(rin, {}, FALSE, bareIds, d21), effOut, 1) = ""
                THEN Verdict(r.rid, "C01", "dev", {"D21-optional-call-loses-receiver", "D23-bare-callee-read-after-arguments"})
           ELSE Verdict(r.rid, "C01", "reject", diff)
   \* ---- C03 (static half) : hook argument lists
